@@ -1,6 +1,7 @@
 (* C06 — archives conform to format v1 as documented, in both directions.
    Statements only; proofs are in theories/{GcmProofs,FormatProofs,FormatBridge,FormatScan,FormatContent,
    FormatWriterBridge,FormatV1,SrcTieFormat}.v. *)
+From MLA Require Import Limit.
 From Coq Require Import String.
 From MLA Require Import Base Gcm GcmProofs Format FormatProofs FormatBridge FormatScan FormatContent FormatWriterBridge FormatV1 SrcTieFormat InstGcm.
 From MLA Require Blocks Writer RoundTripBlocks RoundTripWriter EncLayer EncWriter.
@@ -215,7 +216,7 @@ Theorem C06_written_def : forall ops,
   map (fun ni => (fst ni, RoundTripWriter.pieces 0 (snd ni) ops, Sha256.sha256 (RoundTripWriter.pieces 0 (snd ni) ops)))
       (RoundTripWriter.started 0 ops).
 Proof. intros ops. reflexivity. Qed.
-Theorem C06_format_decode_writer_content :
+Theorem C06_format_decode_writer_content {LIM : Limit} :
   forall FNMAX order ops sf rs,
   (forall f, Permutation.Permutation (order f) f) ->
   Writer.wrun FNMAX Src.BT_FileStart Src.BT_FileContent Src.BT_EndOfArchiveData Src.BT_EndOfFile Sha256.sha256 order
@@ -224,7 +225,7 @@ Theorem C06_format_decode_writer_content :
   len (Writer.w_out sf) < 2 ^ 64 -> len (Blocks.ser_footer_map (order (Writer.w_footer sf))) < 2 ^ 32 ->
   decode_content Sha256.sha256 (Writer.w_out sf) = Ok (written Sha256.sha256 ops).
 Proof. exact decode_writer_v1_content. Qed.
-Theorem C06_format_decode_writer :
+Theorem C06_format_decode_writer {LIM : Limit} :
   forall CHUNK BLOCK unbr FNMAX order ops sf rs cands,
   (forall f, Permutation.Permutation (order f) f) ->
   Writer.wrun FNMAX Src.BT_FileStart Src.BT_FileContent Src.BT_EndOfArchiveData Src.BT_EndOfFile Sha256.sha256 order
@@ -236,7 +237,7 @@ Proof. exact decode_writer_v1_plain. Qed.
 (* encrypted: the block stream, cut into ANY pieces, through the encryption WRITER model (write_all per
    piece, finalize); its cipher parameters ks/tagc are AES-256-GCM under kd with the per-chunk nonces
    (cipher_agrees: chunk_enc ks tagc j pt = ciphertext ++ tag of aseal_gcm kd (nonce8 . BE32 j) pt) *)
-Theorem C06_format_decode_writer_enc :
+Theorem C06_format_decode_writer_enc {LIM : Limit} :
   forall CHUNK BLOCK CIPHERBUF unbr FNMAX order ops sf rs ks tagc fuel pcs es eph rpub rpubs cpriv cands kd nonce8,
   0 < CHUNK ->
   (forall f, Permutation.Permutation (order f) f) ->
@@ -262,7 +263,7 @@ Theorem C06_gcm_cipher_agrees : forall CHUNK kd nonce8 n, length kd = 32%nat -> 
   cipher_agrees CHUNK (gcm_ks (gcm_tab (aes256_expand kd) nonce8 CHUNK n)) (gcm_tagc (aes256_expand kd) nonce8)
                 aseal_gcm kd nonce8 (N.of_nat n).
 Proof. exact FormatCipher.gcm_cipher_agrees. Qed.
-Theorem C06_format_decode_writer_enc_gcm :
+Theorem C06_format_decode_writer_enc_gcm {LIM : Limit} :
   forall CHUNK BLOCK CIPHERBUF unbr FNMAX order ops sf rs n fuel pcs es eph rpub rpubs cpriv cands kd nonce8,
   0 < CHUNK ->
   (forall f, Permutation.Permutation (order f) f) ->
@@ -290,7 +291,7 @@ Example C06_decode_writer_nonvacuous :
   /\ written Sha256.sha256 ex2_ops = ex_expected ex_ops_files.
 Proof.
   split; [|vm_compute; reflexivity].
-  apply (C06_format_decode_writer 64 256 no_brotli 48 ex2_order ex2_ops ex2_sf ex2_rs [] ex2_order_perm).
+  apply (C06_format_decode_writer (LIM := Src.BINCODE_MAX_DESERIALIZE_prod) 64 256 no_brotli 48 ex2_order ex2_ops ex2_sf ex2_rs [] ex2_order_perm).
   - apply surjective_pairing.
   - vm_compute. repeat constructor.
   - vm_compute. reflexivity.
@@ -307,7 +308,7 @@ Example C06_decode_writer_enc_nonvacuous :
 Proof.
   assert (Hes : exists es, ex2_enc = Ok es) by (vm_compute; eexists; reflexivity).
   destruct Hes as [es Hes]. exists es. split; [exact Hes|].
-  apply (C06_format_decode_writer_enc_gcm 64 256 24 no_brotli 48 ex2_order ex2_ops ex2_sf ex2_rs ex2_ntab 1000%nat
+  apply (C06_format_decode_writer_enc_gcm (LIM := Src.BINCODE_MAX_DESERIALIZE_prod) 64 256 24 no_brotli 48 ex2_order ex2_ops ex2_sf ex2_rs ex2_ntab 1000%nat
            ex2_pcs es X25519.alice_sk X25519.bob_pk [] X25519.bob_sk [] ex_kd ex_nonce8).
   - reflexivity.
   - exact ex2_order_perm.
